@@ -16,8 +16,23 @@ const SLOT_NAMES: [&str; SLOTS] = ["information_request_tag", "address_tag", "en
 #[derive(Clone, Debug, Serialize, Deserialize)]
 pub struct Call {
     pub slot: u8,
-    pub n: u8,
+    pub n: u16,
     pub key: u32,
+    /// 0: marker field values; 1: every field 0 or 8 (bits of `key`), which
+    /// makes tag tails that look like an end tag; 2: special-value pool
+    #[serde(default)]
+    pub mode: u8,
+}
+
+const POOL: [u32; 12] = [0, 8, 1, 16, 0xFFFF_FFFF, 0xE852_50D6, 0x8000_0000, 0x7FFF_FFFF, 24, 0x0008_0000, 0x0000_0800, 0x17AD_AF12];
+
+/// Field value number `j` of a call.
+fn fv(c: &Call, j: usize) -> u32 {
+    match c.mode {
+        0 => w(c.key, j),
+        1 => [0, 8][(c.key >> (2 + j % 16) & 1) as usize],
+        _ => POOL[(w(c.key, j) % POOL.len() as u32) as usize],
+    }
 }
 
 #[derive(Clone, Debug, Serialize, Deserialize)]
@@ -41,18 +56,18 @@ fn apply(b: h::Builder, c: &Call) -> (h::Builder, Vec<u8>) {
     let fl = if k & 1 == 0 { h::HeaderTagFlag::Required } else { h::HeaderTagFlag::Optional };
     match c.slot as usize % SLOTS {
         0 => {
-            let reqs: Vec<h::MbiTagTypeId> = (0..c.n as usize % 33).map(|j| h::MbiTagTypeId::new(w(k, j))).collect();
+            let reqs: Vec<h::MbiTagTypeId> = (0..c.n as usize).map(|j| h::MbiTagTypeId::new(fv(c, j))).collect();
             let t = h::InformationRequestHeaderTag::new(fl, &reqs);
             let i = image(&*t);
             (b.information_request_tag(t), i)
         }
         1 => {
-            let t = h::AddressHeaderTag::new(fl, w(k, 0), w(k, 1), w(k, 2), w(k, 3));
+            let t = h::AddressHeaderTag::new(fl, fv(c, 0), fv(c, 1), fv(c, 2), fv(c, 3));
             let i = image(&t);
             (b.address_tag(t), i)
         }
         2 => {
-            let t = h::EntryAddressHeaderTag::new(fl, w(k, 0));
+            let t = h::EntryAddressHeaderTag::new(fl, fv(c, 0));
             let i = image(&t);
             (b.entry_tag(t), i)
         }
@@ -62,7 +77,7 @@ fn apply(b: h::Builder, c: &Call) -> (h::Builder, Vec<u8>) {
             (b.console_tag(t), i)
         }
         4 => {
-            let t = h::FramebufferHeaderTag::new(fl, w(k, 0), w(k, 1), w(k, 2));
+            let t = h::FramebufferHeaderTag::new(fl, fv(c, 0), fv(c, 1), fv(c, 2));
             let i = image(&t);
             (b.framebuffer_tag(t), i)
         }
@@ -77,12 +92,12 @@ fn apply(b: h::Builder, c: &Call) -> (h::Builder, Vec<u8>) {
             (b.efi_bs_tag(t), i)
         }
         7 => {
-            let t = h::EntryEfi32HeaderTag::new(fl, w(k, 0));
+            let t = h::EntryEfi32HeaderTag::new(fl, fv(c, 0));
             let i = image(&t);
             (b.efi_32_tag(t), i)
         }
         8 => {
-            let t = h::EntryEfi64HeaderTag::new(fl, w(k, 0));
+            let t = h::EntryEfi64HeaderTag::new(fl, fv(c, 0));
             let i = image(&t);
             (b.efi_64_tag(t), i)
         }
@@ -92,7 +107,7 @@ fn apply(b: h::Builder, c: &Call) -> (h::Builder, Vec<u8>) {
                 1 => h::RelocatableHeaderTagPreference::Low,
                 _ => h::RelocatableHeaderTagPreference::High,
             };
-            let t = h::RelocatableHeaderTag::new(fl, w(k, 0), w(k, 1), w(k, 2), pf);
+            let t = h::RelocatableHeaderTag::new(fl, fv(c, 0), fv(c, 1), fv(c, 2), pf);
             let i = image(&t);
             (b.relocatable_tag(t), i)
         }
@@ -171,22 +186,32 @@ fn enumerate(_: &Ctx) -> Box<dyn Iterator<Item = Case>> {
     let it = (0..2u32).flat_map(|arch| {
         (0..(1u32 << SLOTS)).map(move |mask| Case {
             arch,
-            calls: (0..SLOTS).filter(|s| mask >> s & 1 == 1).map(|s| Call { slot: s as u8, n: ((mask as usize + s) % 33) as u8, key: mask * 31 + s as u32 }).collect(),
+            calls: (0..SLOTS).filter(|s| mask >> s & 1 == 1).map(|s| Call { slot: s as u8, n: ((mask as usize + s) % 33) as u16, key: mask * 31 + s as u32, mode: 0 }).collect(),
         })
     });
-    Box::new(it)
+    // every single-tag header with all 0/8 field patterns (tails that look
+    // like the terminating end tag), and the largest request lists
+    let single = (0..2u32).flat_map(|arch| {
+        (0..SLOTS as u8).flat_map(move |slot| {
+            (0..4u16).flat_map(move |n| (0..64u32).map(move |bits| Case { arch, calls: vec![Call { slot, n, key: bits << 2 | (bits & 1), mode: 1 }] }))
+        })
+    });
+    let big = [2040u16, 2041, 2042, 2047, 2048, 4096, 8100].into_iter().map(|n| Case { arch: 0, calls: vec![Call { slot: 0, n, key: n as u32, mode: 0 }, Call { slot: 2, n: 0, key: 5, mode: 0 }] });
+    Box::new(it.chain(single).chain(big))
 }
 
 fn strategy(_: &Ctx) -> BoxedStrategy<Case> {
-    (0u32..2, proptest::collection::vec((0u8..SLOTS as u8, 0u8..33, any::<u32>()), 0..=16))
-        .prop_map(|(arch, v)| Case { arch, calls: v.into_iter().map(|(slot, n, key)| Call { slot, n, key }).collect() })
+    let n = prop_oneof![16 => 0u16..33, 1 => 33u16..2100, 1 => 2000u16..8100];
+    let mode = prop_oneof![3 => Just(0u8), 2 => Just(1u8), 1 => Just(2u8)];
+    (0u32..2, proptest::collection::vec((0u8..SLOTS as u8, n, any::<u32>(), mode), 0..=16))
+        .prop_map(|(arch, v)| Case { arch, calls: v.into_iter().map(|(slot, n, key, mode)| Call { slot, n, key, mode }).collect() })
         .boxed()
 }
 
 pub fn subs() -> Vec<Box<dyn Sub>> {
     vec![Box::new(PropSub::<Case> {
         name: "builder",
-        rule: "header Builder: enumerated completely in every tier: all 2^10 subsets of the builder slots x both architectures (one call per chosen slot); generated: 0..=16 calls in random order with repeats, information-request lists of 0..=32 entries, marker field values. Oracle: 8-aligned, loads, magic, chosen architecture, length word == byte length, checksum congruence (reference model), walk == supplied tags (last call per slot wins) byte-identical up to their sizes, and the final 8 bytes are an end tag (type 0, flags 0, size 8). Non-trivial = at least one call; distinct by (arch, call list)",
+        rule: "header Builder: enumerated completely in every tier: all 2^10 subsets of the builder slots x both architectures (one call per chosen slot); generated: 0..=16 calls in random order with repeats, information-request lists of 0..=32 entries (sometimes up to 8100, i.e. headers up to the specification's 32768 bytes), field values as markers, as 0/8 patterns (tag tails that look like an end tag; all single-tag headers with such patterns are enumerated) or from a special-value pool. Oracle: 8-aligned, loads, magic, chosen architecture, length word == byte length, checksum congruence (reference model), walk == supplied tags (last call per slot wins) byte-identical up to their sizes, and the final 8 bytes are an end tag (type 0, flags 0, size 8). Non-trivial = at least one call; distinct by (arch, call list)",
         profiles: Profiles::Both,
         quick: 30000,
         thorough: 2000000,
